@@ -18,7 +18,8 @@ META = {
                    "symbolic partial derivative (independent differentiator) of the base kernel's own value.",
     "bounds": {"quick": "(n1,n2) in {(2,3),(3,2)}, d in {1,2}, ARD on/off, batch (); one scenario per kernel and mode",
                "thorough": "(n1,n2) in {(2,3),(3,2),(1,2)}, d in {1,2,3}, ARD on/off, batch () and (2,), modes cross/same/diag/autograd"},
-    "outside": ["KeOps kernels, MultiDeviceKernel", "trigonometric identities beyond congruence (the reference for Periodic / "
+    "outside": ["KeOps kernels, MultiDeviceKernel", "HammingIMQ: the one-hot sequences are enumerated (concrete), alpha/beta symbolic",
+                "CylindricalKernel only off its guards (no coordinate exactly 0, radius < 1: path conditions of the run)", "trigonometric identities beyond congruence (the reference for Periodic / "
                 "SpectralDelta / Cosine is written in the algebraic form the documentation's formula takes after the evenness of "
                 "sin^2 / cos and cos(u-v)=cos u cos v+sin u sin v)", "floating-point rounding"],
     "assumptions": ["reals for floats", "documented numerical guards are part of the reference (distance clamp 1e-15, "
@@ -286,9 +287,9 @@ def value(S, spec, n1, n2, d, ard, batch, mode, wrap):
         if wrap == "scale":
             osc = as_sym_arr(SH.get(k.outputscale))
         if mode == "diag":
-            out = k(x1, x2, diag=True)
+            out = S.must_not_raise("%s(x, x, diag=True)" % spec, lambda: k(x1, x2, diag=True))
         else:
-            out = dense(k(x1, x2))
+            out = S.must_not_raise("%s(x1, x2)" % spec, lambda: dense(k(x1, x2)))
     for b in np.ndindex(*bs):
         pb = {n: (v[b] if (bs and v.shape[:len(bs)] == bs) else v) for n, v in p.items()}
         R = REFS[spec](X1[b], X2[b], pb, base)
@@ -310,6 +311,179 @@ def value(S, spec, n1, n2, d, ard, batch, mode, wrap):
         else:
             S.prove_eq(out[b], R, tag + "%s K(x1,x2)" % spec)
 
+
+
+# ------------------------------------------------------------------------------------------------- further exported kernels
+def _freeze(k, S, scale=0.4):
+    for prm in k.parameters():
+        prm.requires_grad_(False)
+    declare_params(S, k, "p_", scale=scale)
+
+
+def extra(S, spec, n1, n2, d, mode="cross"):
+    """kernels whose inputs / parameters do not fit the generic table above"""
+    same = mode in ("same", "diag")
+    diag = mode == "diag"
+
+    def call(k, x1, x2):
+        return S.must_not_raise("%s(x1, x2%s)" % (type(k).__name__, ", diag=True" if diag else ""),
+                                lambda: k(x1, x2, diag=True) if diag else dense(k(x1, x2)))
+
+    def finish(out, R, label):
+        if diag:
+            R = np.array([R[i, i] for i in range(R.shape[0])], dtype=object)
+        S.prove_eq(out, R, label + (" diag" if diag else " K(x1,x2)"))
+
+    if spec == "gskl":
+        k = K.GaussianSymmetrizedKLKernel()
+        _freeze(k, S)
+        x1, x2, X1, X2 = _inputs(S, n1, n2, 2 * d, (), same, scale=0.5)
+        with S.mode():
+            ls = as_sym_arr(SH.get(k.lengthscale)).reshape(-1)[0]
+            out = call(k, x1, x2)
+        eps = Sym.const(1e-8)
+        def one(a, b):
+            tot = Sym.const(0.0)
+            for i in range(d):
+                v1, v2 = sym_exp(a[d + i]) + eps, sym_exp(b[d + i]) + eps
+                dm = (a[i] - b[i]) * (a[i] - b[i])
+                tot = tot + (v1 / v2 + dm / v2 - Sym.const(1.0)) * Sym.const(0.5) + (v2 / v1 + dm / v1 - Sym.const(1.0)) * Sym.const(0.5)
+            return sym_exp(-(tot / ls))
+        return finish(out, _pairs(X1, X2, one), "GaussianSymmetrizedKL")
+
+    if spec == "hamming":
+        V, T = 3, d  # vocabulary size, sequence length
+        k = K.HammingIMQKernel(vocab_size=V)
+        _freeze(k, S)
+        rnd = np.random.RandomState(S.seed + 5)
+        c1 = rnd.randint(0, V, size=(n1, T))
+        c2 = c1 if same else rnd.randint(0, V, size=(n2, T))
+        if not same:
+            c2[0] = c1[0]  # one coinciding pair
+        oh = lambda c: torch.nn.functional.one_hot(torch.as_tensor(c), V).reshape(c.shape[0], -1).double()
+        x1 = oh(c1)
+        x2 = x1 if same else oh(c2)
+        with S.mode():
+            al = as_sym_arr(SH.get(k.alpha)).reshape(-1)[0]
+            be = as_sym_arr(SH.get(k.beta)).reshape(-1)[0]
+            out = call(k, x1, x2)
+        R = np.empty((c1.shape[0], c2.shape[0]), dtype=object)
+        for i in range(c1.shape[0]):
+            for j in range(c2.shape[0]):
+                dh = float(np.sum(c1[i] != c2[j]))
+                R[i, j] = sym_pow((al + Sym.const(1.0)) / (al + Sym.const(dh)), be)
+        return finish(out, R, "HammingIMQ (alpha, beta symbolic; sequences enumerated)")
+
+    if spec == "spectral_delta":
+        ns = 2
+        k = K.SpectralDeltaKernel(num_dims=d, num_deltas=ns)
+        _freeze(k, S)
+        x1, x2, X1, X2 = _inputs(S, n1, n2, d, (), same, scale=0.5)
+        with S.mode():
+            ls = as_sym_arr(SH.get(k.lengthscale)).reshape(-1)[0]
+            Z = as_sym_arr(SH.get(k.Z))
+            out = call(k, x1, x2)
+        def one(a, b):
+            tot = Sym.const(0.0)
+            for q in range(ns):
+                u = np.sum((a / ls) * Z[q]) * Sym.const(2.0) * Sym.const(math.pi)
+                v = np.sum((b / ls) * Z[q]) * Sym.const(2.0) * Sym.const(math.pi)
+                tot = tot + sym_cos(u) * sym_cos(v) + sym_sin(u) * sym_sin(v)  # = cos(2 pi (a-b).z / l)
+            return tot / Sym.const(float(ns))
+        return finish(out, _pairs(X1, X2, one), "SpectralDelta")
+
+    if spec == "cylindrical":
+        nw = 3
+        rk = K.MaternKernel(nu=2.5)
+        k = K.CylindricalKernel(num_angular_weights=nw, radial_base_kernel=rk)
+        _freeze(k, S)
+        x1, x2, X1, X2 = _inputs(S, n1, n2, d, (), same, scale=0.3)
+        with S.mode():
+            w = as_sym_arr(SH.get(k.angular_weights)).reshape(-1)
+            al = as_sym_arr(SH.get(k.alpha)).reshape(-1)[0]
+            be = as_sym_arr(SH.get(k.beta)).reshape(-1)[0]
+            ls = as_sym_arr(SH.get(rk.lengthscale)).reshape(-1)
+            out = call(k, x1, x2)
+        eps = Sym.const(float(k.eps))
+        def kuma(r):
+            return Sym.const(1.0) - sym_pow(Sym.const(1.0) - sym_pow(r, al) + eps, be)
+        def one(a, b):
+            ra, rb = sym_sqrt(np.sum(a * a)), sym_sqrt(np.sum(b * b))
+            g = np.sum((a / ra) * (b / rb))
+            ang = w[0]
+            for p_ in range(1, nw):
+                ang = ang + w[p_] * g ** p_
+            ka, kb = kuma(ra), kuma(rb)
+            r = Sym.const(0.0) if (diag and same) else dist(np.array([ka], dtype=object), np.array([kb], dtype=object), ls)
+            rad = (r * Sym.const(math.sqrt(5)) + Sym.const(1.0) + r * r * Sym.const(5.0 / 3.0)) * sym_exp(r * Sym.const(-math.sqrt(5)))
+            return rad * ang
+        return finish(out, _pairs(X1, X2, one), "Cylindrical (Matern-5/2 radial)")
+
+    if spec in ("additive_structure", "product_structure", "newton_girard"):
+        import warnings
+        with warnings.catch_warnings():
+            warnings.simplefilter("ignore")
+            if spec == "additive_structure":
+                base = K.RBFKernel()
+                k = K.AdditiveStructureKernel(base, num_dims=d)
+            elif spec == "product_structure":
+                base = K.RBFKernel()
+                k = K.ProductStructureKernel(base, num_dims=d)
+            else:
+                base = K.RBFKernel(ard_num_dims=d)
+                k = K.NewtonGirardAdditiveKernel(base, num_dims=d, max_degree=min(d, 3))
+        _freeze(k, S)
+        x1, x2, X1, X2 = _inputs(S, n1, n2, d, (), same, scale=0.6)
+        with S.mode():
+            ls = as_sym_arr(SH.get(base.lengthscale)).reshape(-1)
+            if spec == "newton_girard":
+                osc = as_sym_arr(SH.get(k.outputscale)).reshape(-1)
+            out = call(k, x1, x2)
+        def one(a, b):
+            z = []
+            for i in range(d):
+                li = ls[i] if len(ls) > 1 else ls[0]
+                dd = (a[i] - b[i]) / li
+                z.append(sym_exp(dd * dd * Sym.const(-0.5)))
+            if spec == "additive_structure":
+                return sum(z[1:], z[0])
+            if spec == "product_structure":
+                r = z[0]
+                for t in z[1:]:
+                    r = r * t
+                return r
+            tot = Sym.const(0.0)
+            for deg in range(1, min(d, 3) + 1):
+                e = Sym.const(0.0)
+                for comb in itertools.combinations(range(d), deg):
+                    t = Sym.const(1.0)
+                    for i in comb:
+                        t = t * z[i]
+                    e = e + t
+                tot = tot + osc[deg - 1] * e
+            return tot
+        return finish(out, _pairs(X1, X2, one), spec)
+
+    if spec == "sum_interaction_terms":
+        from gpytorch.utils.sum_interaction_terms import sum_interaction_terms
+        D, deg = d, min(d, 3)
+        c = S.randn(D, n1, n2, scale=0.7)
+        C = S.sym_tensor(c, "c")
+        with S.mode():
+            out = sum_interaction_terms(c, max_degree=deg, dim=-3)
+        R = np.empty((n1, n2), dtype=object)
+        for i in range(n1):
+            for j in range(n2):
+                tot = Sym.const(0.0)
+                for g in range(1, deg + 1):
+                    for comb in itertools.combinations(range(D), g):
+                        t = Sym.const(1.0)
+                        for q in comb:
+                            t = t * C[q, i, j]
+                        tot = tot + t
+                R[i, j] = tot
+        return S.prove_eq(out, R, "sum_interaction_terms = sum of elementary symmetric polynomials up to max_degree")
+    raise KeyError(spec)
 
 def composition(S, n1, n2, d):
     """sums / products / scalings of kernels = sums / products / scalings of their parts"""
@@ -398,6 +572,13 @@ def scenarios(tier, seed):
         add("value", spec="rq", n1=2, n2=2, d=2, ard=True, batch=0, mode="diag", wrap="none")
         add("value", spec="rbf", n1=2, n2=3, d=2, ard=True, batch=2, mode="cross", wrap="scale")
         add("composition", n1=2, n2=3, d=2)
+        for sp, dd in (("gskl", 2), ("hamming", 3), ("spectral_delta", 2), ("cylindrical", 2), ("additive_structure", 3),
+                       ("product_structure", 2), ("newton_girard", 3), ("sum_interaction_terms", 3)):
+            add("extra", spec=sp, n1=2, n2=3, d=dd)
+        add("extra", spec="newton_girard", n1=2, n2=2, d=3, mode="diag")
+        add("extra", spec="additive_structure", n1=2, n2=2, d=2, mode="diag")  # num_dims == n
+        add("extra", spec="product_structure", n1=3, n2=3, d=3, mode="diag")
+        add("extra", spec="hamming", n1=3, n2=3, d=2, mode="same")
         add("grad_kernel", which="rbf_grad", n1=2, n2=3, d=2)
         add("grad_kernel", which="matern52_grad", n1=2, n2=1, d=1)
         add("grad_kernel", which="poly_grad", n1=2, n2=3, d=2)
@@ -420,6 +601,14 @@ def scenarios(tier, seed):
                 add("value", spec=s, n1=2, n2=3, d=1, ard=False, batch=0, mode="cross", wrap="scale")
         add("composition", n1=2, n2=3, d=2)
         add("composition", n1=3, n2=2, d=1)
+        for sp, dds in (("gskl", (1, 2)), ("hamming", (2, 3)), ("spectral_delta", (1, 2)), ("cylindrical", (2, 3)), ("additive_structure", (2, 3)),
+                        ("product_structure", (2, 3)), ("newton_girard", (2, 3, 4)), ("sum_interaction_terms", (2, 3, 4))):
+            for dd in dds:
+                for (n1, n2) in [(2, 3), (3, 2)]:
+                    add("extra", spec=sp, n1=n1, n2=n2, d=dd)
+                if sp != "sum_interaction_terms":
+                    add("extra", spec=sp, n1=2, n2=2, d=dd, mode="diag")
+                    add("extra", spec=sp, n1=3, n2=3, d=dd, mode="same")
         for w, shapes in (("rbf_grad", [(2, 3, 2), (3, 2, 1)]), ("matern52_grad", [(2, 1, 1), (1, 2, 2)]),
                           ("poly_grad", [(2, 3, 2), (3, 2, 1)]), ("rbf_gradgrad", [(1, 2, 1), (2, 1, 2)])):
             for (n1, n2, d) in shapes:
